@@ -33,6 +33,7 @@ type c06Op struct {
 	// cowPage: create a virtual page (host alias of a shared frame) and map it
 	Shared int    `json:"shared,omitempty"` // 0 = zero frame, 1..2 = content-filled frames
 	Flags  uint64 `json:"flags,omitempty"`  // leaf flags
+	AtZero bool   `json:"atzero,omitempty"` // the virtual page is page 0 (host memory mapped at address 0, where the host allows it)
 
 	// fault
 	Page      int    `json:"page,omitempty"` // alias page index (mod count); -1 = pool page P
@@ -51,6 +52,7 @@ type c06Case struct {
 }
 
 type c06Stats struct {
+	pageZero bool // virtual page 0 was one of the copy-on-write pages
 	recoveredShared    bool // recoverable fault with >=2 pages sharing the source frame
 	nonRecovAllPresent bool
 	injected           bool
@@ -185,6 +187,9 @@ func c06Run(c c06Case) (fail *vlib.Failure, rs c06Stats) {
 		switch op.Kind {
 		case "zeroMap":
 			page := vmPageOf(uintptr(op.P[0]), uintptr(op.P[1]), uintptr(op.P[2]), uintptr(op.P[3]))
+			if page == 0 && m.pageZero {
+				continue // page 0 is one of the alias pages of this case: its contents are tied to its shared frame
+			}
 			flags := PageTableEntryFlag(op.Flags | 1)
 			before := allLeaves()
 			var err *kernel.Error
@@ -235,6 +240,9 @@ func c06Run(c c06Case) (fail *vlib.Failure, rs c06Stats) {
 				k := ((op.Page % len(everAliases)) + len(everAliases)) % len(everAliases)
 				v, sh = everAliases[k], everShared[k]
 				rs.remapped = true
+			} else if op.AtZero && m.aliasAtZero(shared[sh]) {
+				v = 0
+				rs.pageZero = true
 			} else {
 				v = m.alias(shared[sh])
 			}
@@ -344,7 +352,13 @@ func c06Run(c c06Case) (fail *vlib.Failure, rs c06Stats) {
 			before := allLeaves()
 			var pageBefore, srcBefore []byte
 			if isAlias {
-				pageBefore = append([]byte(nil), (*[4096]byte)(unsafe.Pointer(virt))[:]...)
+				if virt == 0 {
+					// Go refuses to dereference address 0 even where memory is mapped there; the
+					// page shows the frame it aliases
+					pageBefore = append([]byte(nil), m.frameBytes(shared[al.shared])...)
+				} else {
+					pageBefore = append([]byte(nil), (*[4096]byte)(unsafe.Pointer(virt))[:]...)
+				}
 				srcBefore = append([]byte(nil), m.frameBytes(shared[al.shared])...)
 			}
 			if isAlias {
@@ -477,6 +491,7 @@ func c06GenOp(t *rapid.T) c06Op {
 				op.Flags &^= 1
 			}
 		default:
+			op.AtZero = op.Kind == "cowPage" && rapid.IntRange(0, 14).Draw(t, "atzero") == 0
 			// the interesting class: present, read-only, copy-on-write, plus extras
 			op.Flags = uint64(FlagPresent|FlagCopyOnWrite) | uint64(rapid.SampledFrom([]uint64{0, 1 << 63, 1 << 2, 1<<63 | 1<<2, 1 << 8}).Draw(t, "extra"))
 		}
@@ -525,6 +540,9 @@ func TestVerifC06(t *testing.T) {
 		nt := len(labels) > 0
 		if rs.remapped {
 			labels = append(labels, "page-mapped-onto-its-shared-frame-again")
+		}
+		if rs.pageZero {
+			labels = append(labels, "virtual-page-0-is-a-copy-on-write-page")
 		}
 		if rs.zeroRWRejected > 0 {
 			labels = append(labels, "writable-zero-frame-mapping-rejected")
